@@ -16,11 +16,15 @@ EXHAUSTIVE = {"quick": True, "thorough": True}
 RULE = ("the full decision table skipped x rate {0, 1/4, 1/2, float(0.1), 1, 3/2} x forced from {operation, intercepted body, "
         "not} x ignore-forcing x discard {before the force request, after it, not} x outcome {return, raise, interrupt} x draw "
         "{0, rate-eps, rate, rate+eps, 1-eps} with a SCRIPTED random stream (draw == rate is hit exactly), rows grouped into "
-        "histories of three runs on one recorder (a forced run must not leak into the next); the S3 cassette's size-based rule "
+        "histories of three runs on one recorder (a forced run must not leak into the next); the same inputs for rates {0, 1/2, 1} "
+        "with recording switched off as the operation's first step (and on again as its last): a discard / force request "
+        "issued after disable_recording() still counts, the started recording is finalised by the policy; the S3 cassette's size-based rule "
         "over ratio x draw with scripted random, and over histories of 2-3 S3 cassettes with a size-band calculator living in "
         "one process (created one after the other / interleaved / one saving in between; same or other bucket; a twin with "
         "other content in the same size bands), each drawing from the generator it constructed itself: every decision "
-        "follows the rule on the tapped draw and cassettes with the same history decide the same; seeded real-Random histories run twice and as content/outcome-varied twins, "
+        "follows the rule on the tapped draw, the calculator is given the size the recording has in storage (reference cassette "
+        "without calculator; also for payloads that compress to a few dozen bytes, limits between encoded and stored size), and "
+        "cassettes with the same history decide the same; seeded real-Random histories run twice and as content/outcome-varied twins, "
         "for an ordinary seed and for every kind of value Random accepts (0, 0.0, '', b'', False, True, negative, 2**40, 2**64+1, "
         "text, bytes; two classes with different fractional rates), the decisions also compared with the documented rule applied "
         "to the stream of random.Random(seed) itself; the S3 cassettes are fed directly or THROUGH a real TapeRecorder whose "
@@ -47,10 +51,15 @@ def in_cf(alias="get"):
                 prep_discards=False, run_missing=False, vmiss={"kind": "none"}, fallbacks={"kind": "none"})
 
 
-def row_program(force_from, discard, outcome, variant=0):
+def row_program(force_from, discard, outcome, variant=0, switch="none"):
+    """switch: the service turns recording off while the operation is running (a kill switch, a configuration reload) -
+    "off": disable_recording() as the operation's first step, before any discard / force request; "off-on": the same, and
+    enable_recording() again as its last step.  The recording that was started stays active and is finalised by the policy."""
     term = {"return": {"k": "ret", "e": {"lit": pv.i(variant)}}, "raise": {"k": "raise", "ty": "ValueError"},
             "interrupt": {"k": "interrupt"}}[outcome]
     c = term
+    if switch == "off-on":
+        c = {"k": "enable", "b": True, "next": c}
     if variant:
         c = {"k": "out", "cfg": dict(OUT_CF), "body": {"k": "ret", "e": {"lit": pv.none()}},
              "args": [{"lit": pv.s("x" * variant)}], "kwargs": [], "next": c}
@@ -63,7 +72,24 @@ def row_program(force_from, discard, outcome, variant=0):
              "args": [], "kwargs": [], "next": c}
     if discard == "before":
         c = {"k": "discard", "next": c}
+    if switch != "none":
+        c = {"k": "enable", "b": False, "next": c}
     return c
+
+
+def switched_rows():
+    """the policy inputs again for operations during which recording is switched off (and on again): the decision is the
+    policy's, whatever the global switch does once the recording has started"""
+    for switch in ("off", "off-on"):
+        for rate in ([0, 1], [1, 2], [1, 1]):
+            for force_from in ("none", "op", "body"):
+                for ignore in (False, True):
+                    for discard in ("none", "before", "after"):
+                        for outcome in ("return", "raise", "interrupt"):
+                            r = Fraction(*rate)
+                            for d in (min(r, Fraction(1) - EPS), min(r + EPS, Fraction(1) - EPS)):
+                                yield dict(skipped=False, rate=rate, force_from=force_from, ignore=ignore, discard=discard,
+                                           outcome=outcome, draw=[d.numerator, d.denominator], switch=switch)
 
 
 def rows():
@@ -84,7 +110,8 @@ def row_run(row, variant=0):
     return dict(kind="record", enabled=True, save_fails=False, row=row,
                 prm=dict(rate=row["rate"], ignore=row["ignore"], skipped=row["skipped"], copy=False),
                 op=dict(cls="Op" + ("S" if row["skipped"] else "K"), classlevel=False, extractor={"kind": "none"},
-                        body=row_program(row["force_from"], row["discard"], row["outcome"], variant)))
+                        body=row_program(row["force_from"], row["discard"], row["outcome"], variant,
+                                         row.get("switch", "none"))))
 
 
 def keep_expected(row):
@@ -112,6 +139,11 @@ def generate(rng, tier):
             grp = allrows[k:k + 5]
             keep += [grp[2]] + [grp[rng.choice([0, 1, 3, 4])]]
         allrows = keep
+    sw = list(switched_rows())
+    if tier == "quick":
+        # both draws for the fractional rate, one for rates 0 and 1 (no draw decides there)
+        sw = [r for k, r in enumerate(sw) if r["rate"] == [1, 2] or k % 2 == 0]
+    allrows += sw
     rng.shuffle(allrows)
     cases = []
     for k in range(0, len(allrows), 3):
@@ -285,6 +317,12 @@ def features(case):
                 fs.add("skipped")
             if row["draw"] == row["rate"]:
                 fs.add("draw==rate")
+            if row.get("switch", "none") != "none":
+                fs.add("recording-switched-" + row["switch"] + "-during-the-operation")
+                if row["discard"] != "none":
+                    fs.add("discard-after-recording-was-switched-off")
+                if row["force_from"] != "none":
+                    fs.add("force-after-recording-was-switched-off")
         return fs
     if case["kind"] == "s3hist":
         return c17_s3.features(case)
@@ -319,7 +357,9 @@ MANIFEST = dict(
          "Tie: the full decision table (2x6x3x2x3x3 policy combinations x boundary draws, scripted random so that draw == rate "
          "is hit exactly) run on the real TapeRecorder in histories of three, cassette-call kinds and recorder fields compared "
          "with the model; the real S3TapeCassette._should_sample against the model rule, single decisions with a scripted draw "
-         "and histories of several cassettes in one process with their own generators (tapped draws). Direct predicate: harness-side "
+         "and histories of several cassettes in one process with their own generators (tapped draws); the size the calculator is "
+         "given is compared with the byte length of what a reference cassette without calculator stores for the same recording "
+         "(incl. highly compressible payloads whose encoded and stored sizes lie in different bands). Direct predicate: harness-side "
          "re-statement of the policy incl. draws consumed; seeded histories twice and as content/outcome-varied twins, over ordinary "
          "and edge seeds (0 and the other falsy values, negative, huge, text, bytes), and against the rule applied to "
          "random.Random(seed) itself. The S3 cassettes are fed directly and through a real TapeRecorder around returning / "
